@@ -27,4 +27,5 @@ for i in ids:
         print(i, meta['property'], {k: v for k, v in res.items() if v != (0, [])} or 'MISSED (all silent)')
     finally:
         subprocess.run(['git', '-C', '/repo', 'checkout', '--', '.'])
+        subprocess.run(['git', '-C', '/repo', 'clean', '-fdq', '--', 'qubovert'])
 subprocess.run(['git', '-C', '/verif', 'checkout', '--', 'evidence'], capture_output=True)
